@@ -12,10 +12,16 @@ import (
 // text in such a class decrypts; "any altered ciphertext is refused" needs the
 // text itself to be checked against the one canonical encoding of its bytes.
 func c27CanonicalText(w *World, r *Report, rel string, tree []*ssa.Function) {
+	canonicalText(w, r, "R-C27-6", "encoding/base64.Encoding.DecodeString", "encoding/base64.Encoding.EncodeToString", tree)
+}
+
+// canonicalText is the analysis of R-C27-6 for one decoder / encoder pair; C21
+// runs it for the hex text of a native token (R-C21-8).
+func canonicalText(w *World, r *Report, rule, decoder, encoder string, tree []*ssa.Function) {
 	for _, fn := range tree {
 		allInstrs(fn, func(in ssa.Instruction) {
 			d, ok := in.(*ssa.Call)
-			if !ok || callID(d.Common()) != "encoding/base64.Encoding.DecodeString" {
+			if !ok || callID(d.Common()) != decoder {
 				return
 			}
 
@@ -32,7 +38,7 @@ func c27CanonicalText(w *World, r *Report, rel string, tree []*ssa.Function) {
 
 			isReencoded := func(v ssa.Value) bool {
 				c, ok := stripValue(v).(*ssa.Call)
-				if !ok || callID(c.Common()) != "encoding/base64.Encoding.EncodeToString" {
+				if !ok || callID(c.Common()) != encoder {
 					return false
 				}
 
@@ -48,7 +54,7 @@ func c27CanonicalText(w *World, r *Report, rel string, tree []*ssa.Function) {
 			})
 
 			if len(cuts) == 0 {
-				r.Violate("R-C27-6", key, w.pos(in.Pos()), "the decoded bytes are used without comparing their re-encoding with the text that was given: base64 decoding skips line breaks and ignores the spare bits of the last symbol, so an edited ciphertext (a changed last symbol, an inserted newline) decodes to the same bytes and decrypts")
+				r.Violate(rule, key, w.pos(in.Pos()), "the decoded bytes are used without comparing their re-encoding with the text that was given: the decoder maps several texts to the same bytes (base64 skips line breaks and ignores the spare bits of the last symbol, hex accepts upper-case digits), so an edited text decodes to the same bytes and is accepted")
 
 				return
 			}
@@ -60,9 +66,9 @@ func c27CanonicalText(w *World, r *Report, rel string, tree []*ssa.Function) {
 			})
 
 			if hit != nil {
-				r.Violate("R-C27-6", key, w.pos(hit.Pos()), "a successful return is reachable from the decoder without the canonical-text comparison having held")
+				r.Violate(rule, key, w.pos(hit.Pos()), "a successful return is reachable from the decoder without the canonical-text comparison having held")
 			} else {
-				r.Discharge("R-C27-6", key, w.pos(in.Pos()), "success only behind EncodeToString(decoded) == text")
+				r.Discharge(rule, key, w.pos(in.Pos()), "success only behind EncodeToString(decoded) == text")
 			}
 		})
 	}
